@@ -78,10 +78,21 @@ def lcm(a, b):
 # generation
 
 
-def enforce_no_pitch_overlap(asc, rng):
-    """precondition of C04: no two notes of equal pitch overlap (anywhere, so
-    that it holds within one track/channel for every mode)."""
+def enforce_no_pitch_overlap(asc, rng, mode=None):
+    """precondition of C04: no two notes of equal pitch overlap within one track/channel.  mode=None: nowhere at all
+    (holds for every mode); otherwise only inside the (track, channel) cell the mode puts a note in - equal pitches may
+    then sound together in different parts (modes 0-3, 5) or voices (modes 0, 5)."""
+
+    def cell(pi, voice):
+        if mode is None or mode == 4:
+            return ()
+        if mode in (0, 5):
+            return (pi, voice)
+        return (pi,)
+
     chains = []
+    for pi, p in enumerate(asc["parts"]):
+        p["_pi"] = pi
     for p in asc["parts"]:
         byid = {n["id"]: n for n in p["notes"]}
         for n in p["notes"]:
@@ -93,14 +104,14 @@ def enforce_no_pitch_overlap(asc, rng):
                 x = byid[x["tie_next"]]
                 members.append(x)
             chains.append((p, members))
-    placed = []  # (start_q, end_q, pitch)
+    placed = []  # (start_q, end_q, pitch, cell)
 
     def span(p, members):
         return gen.quarter_pos(p, members[0]["t"]), gen.quarter_pos(p, members[-1]["e"])
 
-    def conflicts(a, b, mp):
-        for s, e, q in placed:
-            if q != mp:
+    def conflicts(a, b, mp, cl):
+        for s, e, q, c in placed:
+            if q != mp or c != cl:
                 continue
             if a == b or s == e:  # zero-length notes must not touch an equal pitch at all
                 if s <= a <= e or a <= s <= b:
@@ -114,8 +125,11 @@ def enforce_no_pitch_overlap(asc, rng):
         a, b = span(p, members)
         n0 = members[0]
         mp = gen.midi_pitch(n0["step"], n0["alter"], n0["octave"])
+        cl = cell(p["_pi"], n0["voice"])
+        if len(set(cell(p["_pi"], m["voice"]) for m in members)) > 1:
+            cl = ()  # a tie chain that changes voice is kept apart from everything
         tries = 0
-        while conflicts(a, b, mp) and tries < 40:
+        while conflicts(a, b, mp, cl) and tries < 40:
             tries += 1
             step = rng.choice(gen.STEPS)
             alter = rng.choice((None, None, 1, -1))
@@ -123,15 +137,20 @@ def enforce_no_pitch_overlap(asc, rng):
             mp = gen.midi_pitch(step, alter, octave)
             for m in members:
                 m["step"], m["alter"], m["octave"] = step, alter, octave
-        if conflicts(a, b, mp):
+        if conflicts(a, b, mp, cl):
             for m in members:
                 m["kind"] = "rest"
                 for k in ("tie_next", "tie_prev", "grace_next", "grace_prev"):
                     m.pop(k, None)
         else:
-            placed.append((a, b, mp))
+            placed.append((a, b, mp, cl))
+            if cl == ():
+                # ... and nothing else may overlap it anywhere
+                for c2 in set(x[3] for x in placed):
+                    placed.append((a, b, mp, c2))
     # clean dangling references to notes turned into rests
     for p in asc["parts"]:
+        p.pop("_pi", None)
         kinds = {n["id"]: n["kind"] for n in p["notes"]}
         for n in p["notes"]:
             for k in ("tie_next", "tie_prev", "grace_next", "grace_prev"):
@@ -148,9 +167,10 @@ def generate(seed, tier, cfg):
     st = R.Streams(seed)
     k = st.knobs
     asc = gen.gen_score(st.workload, profile="midi", size=gen.pick_size(tier, st.knobs))
-    enforce_no_pitch_overlap(asc, st.workload)
-    o = st.ops
     mode = k.randrange(0, 6)
+    per_cell = k.random() < 0.5
+    enforce_no_pitch_overlap(asc, st.workload, mode if per_cell else None)
+    o = st.ops
     policy = k.choice(POLICIES)
     min_ppq = k.choice((0, 0, 0, 24, 480, 960))
     velocity = k.choice((64, 64, 1, 100, 127))
